@@ -50,6 +50,9 @@ class FuncInfo:
 def find_function(key):
     """key = 'pkg.mod:Class.method' | 'pkg.mod:func' | 'pkg.mod:outer.inner' (nested def)."""
     modname, qual = key.split(":")
+    want_setter = qual.endswith("@setter")
+    if want_setter:
+        qual = qual[: -len("@setter")]
     mod, tree, src = module_tree(modname)
     parts = qual.split(".")
     node = tree
@@ -61,6 +64,10 @@ def find_function(key):
         found = None
         for ch in ast.walk(node) if isinstance(node, (ast.FunctionDef,)) else node.body:
             if isinstance(ch, (ast.FunctionDef, ast.ClassDef)) and ch.name == p and ch is not node:
+                if i == len(parts) - 1 and isinstance(ch, ast.FunctionDef):
+                    is_setter = any(isinstance(d, ast.Attribute) and d.attr == "setter" for d in ch.decorator_list)
+                    if is_setter != want_setter:
+                        continue
                 found = ch
                 break
         if found is None:
